@@ -10,7 +10,7 @@ import warnings
 
 from . import compare, observe, xmlout
 from .model import Model, spec_of, F_RESIDUE, F_SCOPE
-from .world import World, SimHandler, SimFault, SimInterrupt, SimBudget
+from .world import World, SimHandler, SimFault, SimInterrupt, SimExit, SimCancel, SimBudget
 from . import world as _world
 
 import wn
@@ -143,7 +143,7 @@ class Sim:
                 return fn(*a, **kw), None
         except SimBudget:
             raise
-        except (Exception, SimInterrupt) as e:
+        except (Exception, SimInterrupt, SimExit, SimCancel) as e:
             # drop the traceback: a retained traceback keeps wn's cursor objects (and any
             # statement still active on them) alive, which ordinary callers do not do
             e.tb_text = traceback.format_exception(e)[-3:]
@@ -566,8 +566,65 @@ class Sim:
                                           'more': [x[0] for x in d[1:6]]},
                                          tags=self.cause_tags(path, fam))
                 self.check_describe(w, fam)
+                self.check_search_routes(fam, exp, relations)
         finally:
             self.W.end_op()
+
+    def check_search_routes(self, fam, exp, relations):
+        """Words, senses and synsets found by a word-form search - under any combination of
+        the constructor options search_all_forms / normalizer / lemmatizer, with and without
+        a part-of-speech filter, positional or by keyword - are the same stored entities and
+        report the same content as when enumerated."""
+        import random
+        import wn.morphy
+        rng = random.Random('%s:routes:%d:%s' % (self.seed, self.step, fam[0]))
+        keys = sorted(exp['words'])
+        if not keys:
+            return
+        opts = rng.choice([{'search_all_forms': False}, {'normalizer': None},
+                           {'lemmatizer': wn.morphy.Morphy()},
+                           {'normalizer': None, 'search_all_forms': False}, {}])
+        w2, exc = self.call(wn.Wordnet, lexicon=' '.join(fam), expand='', **opts)
+        if exc is not None:
+            raise self.violation('search-route', 'Wordnet() raised', {'exc': repr(exc),
+                                                                      'scope': fam})
+        shown = {k: (type(v).__name__ if k == 'lemmatizer' else v) for k, v in opts.items()}
+        for key in rng.sample(keys, min(3, len(keys))):
+            lemma, pos = exp['words'][key]['lemma'], exp['words'][key]['pos']
+            call = rng.choice([((lemma,), {}), ((lemma, pos), {}), ((lemma,), {'pos': pos}),
+                               ((), {'form': lemma, 'pos': pos})])
+            ctx = {'scope': fam, 'options': shown, 'args': [list(call[0]), call[1]]}
+            found = w2.words(*call[0], **call[1])
+            mine = [h for h in found if observe.ekey(h) == key]
+            if len(mine) != 1:
+                raise self.violation('search-route', 'a word is not found (exactly once) by '
+                                     'its own lemma', dict(ctx, word=key,
+                                                           found=[observe.ekey(h) for h in found]))
+            d = compare.diff(exp['words'][key], observe.word_obs(mine[0]))
+            if d:
+                raise self.violation('search-route', 'a word found by a form search reports '
+                                     'other content than the same word enumerated: %s'
+                                     % generalize('/words/x' + d[0][0]),
+                                     dict(ctx, word=key, path=d[0][0], diff=d[0][2]))
+            for h in w2.senses(*call[0], **call[1]):
+                k2 = observe.ekey(h)
+                if k2 in exp['senses']:
+                    d = compare.diff(exp['senses'][k2], observe.sense_obs(h, relations))
+                    if d:
+                        raise self.violation('search-route', 'a sense found by a form search '
+                                             'reports other content than the same sense '
+                                             'enumerated', dict(ctx, sense=k2, path=d[0][0],
+                                                                diff=d[0][2]))
+            for h in w2.synsets(*call[0], **call[1]):
+                k2 = observe.ekey(h)
+                if k2 in exp['synsets']:
+                    d = compare.diff(exp['synsets'][k2], observe.synset_obs(h, relations))
+                    if d:
+                        raise self.violation('search-route', 'a synset found by a form search '
+                                             'reports other content than the same synset '
+                                             'enumerated', dict(ctx, synset=k2, path=d[0][0],
+                                                                diff=d[0][2]))
+            self.probe('search-route-compared')
 
     def check_describe(self, w, fam):
         """Lexicon.describe(): the counts it prints are those of the lexicon's own content."""
